@@ -156,7 +156,14 @@ def compare(ds, model, ever, viols, where, ctx):
     """Whole observable state of every bucket vs the model."""
     for bid, m in model.items():
         b = ds[bid]
-        listing = [obs(e) for e in b.get(-1)]
+        handed = b.get(-1)
+        listing = [obs(e) for e in handed]
+        for e in handed[:4]:
+            # the reader annotates what it was handed (its own objects now): later reads must not show it
+            e.data["$seen"] = True
+            for v in e.data.values():
+                if isinstance(v, (list, dict)):
+                    v.clear()
         want = Counter((i,) + t for i, t in m.items())
         got = Counter(listing)
         if got != want:
